@@ -1,9 +1,101 @@
-import Lean.Data.Json
-/-! Driver handlers for property C10: `handle op request` answers one JSON request. -/
-namespace Pydjinni.Drv.C10
-open Lean
+import PydjinniModel.Drv.SysJson
+/-!
+Driver handlers for property C10.
 
-def handle (op : String) (_req : Json) : Except String Json :=
-  throw s!"unknown op {op}"
+* `c10.sort` — the two sort pipelines of the templates (`| sort`, `| sort(case_sensitive=true) | sort`) on a list of strings
+* `c10.run`  — one API object driven along a history of parse / generate / report calls: per call the files written
+               (path, content identity) and whether they equal what a fresh process writes for the same
+               (configuration, program, target)
+-/
+namespace Pydjinni.Drv.C10
+open Lean Pydjinni.Gen Pydjinni.Sys Pydjinni.Drv.SysJson
+
+def sort (req : Json) : Except String Json := do
+  let items ← getStrs req "items"
+  pure (Json.mkObj [("legacy", strsJ (jinjaSort items)), ("total", strsJ (jinjaSortTotal items))])
+
+def decodeCfg (j : Json) : Except String Cfg := do
+  let gens ← j.getObjVal? "gens" >>= decodeGens
+  let supportLib ← j.getObjValAs? Bool "supportLib"
+  let report ← optStr j "report"
+  pure { gens, supportLib, report := report.map Path.ofString }
+
+def decodeProg (j : Json) : Except String Prog := do
+  let id ← j.getObjValAs? String "id"
+  let reads ← getStrs j "reads"
+  let exts ← getStrs j "exts"
+  let defs ← decodeDecls j "defs"
+  pure { id, reads := reads.map Path.ofString, exts := exts.map Path.ofString, defs }
+
+def decodeCall (j : Json) : Except String Call := do
+  let op ← j.getObjValAs? String "op"
+  match op with
+  | "parse" => do
+    let c ← j.getObjValAs? Nat "ctx"
+    let p ← j.getObjValAs? Nat "prog"
+    pure (.parse c p)
+  | "generate" => do
+    let k ← j.getObjValAs? Nat "gc"
+    let t ← j.getObjValAs? String "target" >>= decodeT
+    pure (.generate k t)
+  | "report" => do
+    let k ← j.getObjValAs? Nat "gc"
+    pure (.report k)
+  | _ => throw s!"unknown call {op}"
+
+def cidJ (c : ContentId) : Json := Json.str s!"{c.g}|{c.tag}|{c.prog}|{c.cm}|{c.cc}"
+
+def filesJ' (fs : List (Path × ContentId)) : Json :=
+  Json.arr (fs.map (fun f => Json.arr #[pathJ f.1, cidJ f.2])).toArray
+
+def outcomeJ : Outcome → List (String × Json)
+  | .parsed => [("kind", "parsed")]
+  | .wrote fs => [("kind", "wrote"), ("files", filesJ' fs)]
+  | .missingConfig fs => [("kind", "missingConfig"), ("files", filesJ' fs)]
+  | .crash fs => [("kind", "crash"), ("files", filesJ' fs)]
+  | .noReport => [("kind", "noReport")]
+  | .badCall => [("kind", "badCall")]
+
+def run (req : Json) : Except String Json := do
+  let wj ← req.getObjVal? "world"
+  let cj ← wj.getObjValAs? (Array Json) "cfgs"
+  let cfgs ← cj.toList.mapM decodeCfg
+  let pj ← wj.getObjValAs? (Array Json) "progs"
+  let progs ← pj.toList.mapM decodeProg
+  let support ← wj.getObjVal? "support" >>= decodeSupport
+  let w : World := { cfgs, progs, support }
+  let callsJ ← req.getObjValAs? (Array Json) "calls"
+  let calls ← callsJ.toList.mapM decodeCall
+  let mut s := initState
+  let mut origin : List (Nat × Nat) := []     -- (context, program) of every parse result
+  let mut out : List Json := []
+  for call in calls do
+    let (s', o) := step w s call
+    let extra : List (String × Json) :=
+      match call with
+      | .generate k t =>
+        match origin[k]? with
+        | some (i, j) =>
+          match w.cfgs[i]?, w.progs[j]? with
+          | some c, some p =>
+            let f := fresh w c p t
+            [("sameAsFresh", Json.bool (decide (o = f)))] ++ (outcomeJ f).map (fun (k, v) => ("fresh_" ++ k, v))
+          | _, _ => []
+        | none => []
+      | _ => []
+    match call, o with
+    | .parse i j, .parsed => origin := origin ++ [(i, j)]
+    | _, _ => pure ()
+    out := out ++ [Json.mkObj (outcomeJ o ++ extra)]
+    s := s'
+  let rep := s.frw.report
+  pure (Json.mkObj [("calls", Json.arr out.toArray),
+    ("parsed_idl", pathsJ rep.idl), ("parsed_ext", pathsJ rep.ext)])
+
+def handle (op : String) (req : Json) : Except String Json :=
+  match op with
+  | "c10.sort" => sort req
+  | "c10.run" => run req
+  | _ => throw s!"unknown op {op}"
 
 end Pydjinni.Drv.C10
